@@ -1,4 +1,5 @@
 import Ekit.Props.C02
+import Ekit.Props.C02Rev
 open Ekit.RB
 #print axioms c02_empty_inv
 #print axioms c02_insert_inv
@@ -15,3 +16,19 @@ open Ekit.RB
 #print axioms c02_treemap_cmps_le
 #print axioms c02_wrappers_cmps_le
 #print axioms c02_cmpAsc_lawful
+-- review additions (Ekit/Props/C02Rev.lean)
+#print axioms c02_treeset_step_inv
+#print axioms c02_treeset_reachable_inv
+#print axioms c02_multimap_step_inv
+#print axioms c02_multimap_reachable_inv
+#print axioms c02_linked_step_inv
+#print axioms c02_linked_reachable_inv
+#print axioms c02_treemap_cmps_le_reachable
+#print axioms c02_treeset_cmps_le_reachable
+#print axioms c02_linked_cmps_le_reachable
+#print axioms c02_multimap_cmps_le_reachable
+#print axioms c02_linked_index_size
+#print axioms c02_insCount
+#print axioms c02_delCount
+#print axioms c02_counts_le_reachable
+#print axioms c02_height_pow
